@@ -611,6 +611,9 @@ class CompilerPassCheckConstValue(CompilerPass):
 
             elif func_data.is_constexpr:
                 value = eval_constexpr(self.data, node)
+                if isinstance(value, bool):
+                    # same spelling as a literal True / False in the source (1 / 0)
+                    value = int(value)
                 update_parent = data.is_constant == False
                 data.set_constant(value)
 
